@@ -99,6 +99,7 @@ def main():
     distinct = set()
     def all_documents():
         yield "hand-built", hand_built()
+        yield "well-known-vocabularies", common.wellknown_document()
         for i_, d_ in common.documents(a.seed + 7, candidates, FEATURES, max_records=3):
             yield i_, d_
 
@@ -143,7 +144,7 @@ def main():
             print("still failing:", f["what"])
         return 1 if bad else 0
     res = {"evaluations": n, "distinct": len(distinct), "samples": samples,
-           "rule": "%d generated candidates (<= 3 records per container), %d PROV-O-expressible by C07's own conditions (outside: %s); written as TriG and read back; set-based comparison with unified()" % (
+           "rule": "2 hand-built documents (parallel anonymous relations; the usual vocabularies rdf/rdfs/owl/dcterms/foaf/skos as attribute names, value, identifier and endpoints) + %d generated candidates (<= 3 records per container), %d PROV-O-expressible by C07's own conditions (outside: %s); written as TriG and read back; set-based comparison with unified()" % (
                candidates, n, dict(outside)),
            "failures_found": len(failures), "failures": list(failures.values())}
     if a.out:
